@@ -12,7 +12,15 @@
 From SF Require Import Base.Prelude Gen.Generated Unsized.Types Unsized.Parse Unsized.Machine Unsized.Ops.
 From SF Require Import Unsized.Proofs.EncodeParse Unsized.Proofs.Mem Unsized.Proofs.Notify Unsized.Proofs.Flat.
 From SF Require Import Unsized.Proofs.Layout Unsized.Proofs.Path Unsized.Proofs.Resize Unsized.Proofs.GenOps Unsized.Proofs.History.
-From SF Require Import Unsized.Proofs.History2 Unsized.Proofs.ExecTie2.
+From SF Require Import Unsized.Proofs.History2 Unsized.Proofs.ExecTie2 Unsized.Proofs.History4.
+
+(* histories of the full operation set with failures in them: the machine reports the owned model's outcome of every step
+   (success, or the error code) and every reachable state represents the owned model's value *)
+Theorem C06_all_ops_continue_after_failures :
+  forall ovf t h v s top pi0 v' l,
+    RepF pi0 t v s top -> m_refuse s <> 1 -> orunXE (m_cap s) (m_refuse s) t v h = Some (v', l) ->
+    exists s' top' pi', mrunXE ovf t s top h = Ok (s', top', l) /\ RepF pi' t v' s' top'.
+Proof. exact xrunE_refines. Qed.
 
 (* the full operation set (stores, set_len, element-level insert / remove of lists of unsized elements): a failure - index,
    range, growth beyond the allowance, growth refused - leaves the machine state untouched and the value represented; the
